@@ -83,6 +83,12 @@ macro_rules! dump_tokens {
 }
 dump_tokens!(syn::Ident, syn::Visibility, syn::Type, syn::Expr, syn::Attribute, syn::Path, syn::TypeParamBound, syn::Field, syn::Variant, syn::WhereClause, syn::GenericParam, syn::Meta, syn::TypeParam, syn::LitStr);
 
+impl Dump for darling::util::PathList {
+    fn dump(&self) -> Value {
+        json!({ "paths": self.iter().map(canon_of).collect::<Vec<_>>() })
+    }
+}
+
 impl Dump for syn::Generics {
     fn dump(&self) -> Value {
         json!({ "tokens": canon_of(self), "where": self.where_clause.as_ref().map(canon_of).unwrap_or_default() })
